@@ -290,15 +290,70 @@ def _(A, R):
             ("otherwise the command string is split",
              z3.Implies(a.is_none(), z3.And(some, seq.eq(want))))]
 
-UNITS = ["codebasin.config:load_database", "codebasin:CompileCommand.is_supported", "codebasin:CompileCommand.arguments"]
+# ---------------------------------------------------------------- CompileCommand.from_json (+ __init__, inlined)
+# The JSON object -> CompileCommand step: every member lands in its own field, nothing is defaulted or swapped, and the
+# object is refused (ValueError) exactly when neither `arguments` nor `command` is present.  JSON values are opaque.
+JV = Atom("JsonValue")
+fj = contract("codebasin:CompileCommand.from_json", props=["C13"])
+fj.param("cls", VFunc("class", "CompileCommand")).param("instance", MapOf(STR, JV))
+
+
+def _k(s):
+    return VStr(z3.StringVal(s))
+
+
+@fj.requires
+def _(A):
+    # the schema (util._validate_json, not verified) requires "file"; from_json is only reached after validation
+    return [("schema: file is present", A.instance.has(_k("file")))]
+
+
+fj.raises("ValueError", lambda A: z3.And(z3.Not(A.instance.has(_k("arguments"))),
+                                         z3.Not(A.instance.has(_k("command")))))
+
+
+@fj.ensures
+def _(A, R):
+    obj = R.st.heap.get(getattr(R.result, "oid", None))
+    if obj is None or obj.cls != "CompileCommand":
+        return [("the result is a CompileCommand", z3.BoolVal(False))]
+    m = A.instance
+    out = [("the result is a CompileCommand", z3.BoolVal(True))]
+
+    def member(field, key, optional=True):
+        v = ops.deref(R.st, obj.fields[field]) if field in obj.fields else None
+        has = m.has(_k(key))
+        if v is None:
+            return z3.BoolVal(False)
+        if isinstance(v, VNone):
+            return z3.Not(has)
+        if isinstance(v, VOpt):
+            if getattr(v.kind, "inner", None) is not JV:
+                return z3.BoolVal(False)
+            return z3.If(has, z3.And(z3.Not(v.is_none()), v.get().t == m.get(_k(key)).t), v.is_none())
+        if not (isinstance(v, VAtom) and v.kind is JV):
+            return z3.BoolVal(False)           # a value that is not a member of the object at all (a default, say)
+        return z3.And(has, v.t == m.get(_k(key)).t)
+    for field, key in (("_filename", "file"), ("_directory", "directory"), ("_arguments", "arguments"),
+                       ("_command", "command"), ("_output", "output")):
+        out.append((f"{field} is the object's `{key}` member, None when absent", member(field, key)))
+    return out
+
+UNITS = ["codebasin.config:load_database", "codebasin:CompileCommand.is_supported", "codebasin:CompileCommand.arguments",
+         "codebasin:CompileCommand.from_json"]
 ASSUMPTIONS = [
     "A4 os.path.{isabs,abspath,join,exists,basename} are pure functions/predicates of the name on a static file system",
     "CompilationDatabase.from_file and ArgumentParser(...).parse_args are opaque (assumed to return a list of commands / "
     "configurations; C11/C12 own argument parsing); exceptions raised by them propagate",
     "A7 DEBUG logging disabled (debug-only statements are not verified); log.warning appends one record",
     "the `command` string form goes through shlex.split (not modelled): is_supported is proved for the arguments form",
+    "from_json: JSON values are opaque (Atom JsonValue); the precondition `file` present is the schema's (util._validate_json, "
+    "not verified); CompilationDatabase.from_json/from_file (json loading, schema, comprehension) only in the native check",
 ]
 NOT_COVERED = ["JSON schema validation of the database", "shlex.split for the `command` form (bounded native check only)"]
 EXPLANATION = ("load_database is proved (two nested loops, offset/prefix-sum invariants) to emit, in database order, exactly one "
                "entry per configuration of every supported command whose file exists, with file and -I directories resolved "
-               "against the entry's directory, one warning per skipped entry, and no exception for any directory spelling.")
+               "against the entry's directory, one warning per skipped entry, and no exception for any directory spelling. "
+               "CompileCommand.from_json (with __init__ inlined) is proved to put each of the five JSON members into its own "
+               "field, None when absent, and to raise ValueError exactly when neither arguments nor command is present; "
+               "the list comprehension of CompilationDatabase.from_json and the schema validation stay unverified.")
